@@ -1,10 +1,18 @@
 #!/bin/bash
-# usage: run_seeded.sh <seed-dir> [prop] [tier]  -- applies the patch to /repo, runs the check, restores /repo
+# usage: run_seeded.sh <seed-dir> [prop] [tier]
+# Applies the patch to a scratch worktree of /repo, runs the check from a scratch copy of /verif
+# against it (VERIF_REPO), removes both. /repo and /verif are not touched.
 d=$(readlink -f "$1"); name=$(basename $d)
 prop=${2:-$(python3 -c "import json;print(json.load(open('$d/meta.json'))['property'])")}
 tier=${3:-quick}
-cd /repo && git diff --quiet || { echo "/repo dirty"; exit 2; }
-git -C /repo apply $d/patch.diff || exit 2
-cd /verif && timeout 3000 ./check $prop $tier > /tmp/seed_$name.out 2>&1; rc=$?
-git -C /repo checkout -- . 
-echo "$name prop=$prop rc=$rc $(grep -c VIOLATION /tmp/seed_$name.out) violation(s): $(grep -m1 '^# ' /tmp/seed_$name.out | cut -c1-200)"
+S=/tmp/sr_$name; rm -rf $S; mkdir -p $S
+git -C /repo worktree remove --force $S/repo 2>/dev/null
+git -C /repo worktree add -q --detach $S/repo HEAD || exit 2
+git -C $S/repo apply $d/patch.diff || { echo "$name: patch does not apply"; git -C /repo worktree remove --force $S/repo; exit 2; }
+rsync -a --exclude .git --exclude out --exclude evidence --exclude seeded /verif/ $S/verif/
+sed -i "s#=> /repo#=> $S/repo#" $S/verif/go/go.mod
+rm -f $S/verif/go/bin/harness $S/verif/go/bin/harness.fp
+(cd $S/verif && VERIF_REPO=$S/repo timeout 3000 ./check $prop $tier > /tmp/seed_$name.out 2>&1); rc=$?
+mkdir -p /verif/out/seeded_replays; cp $S/verif/out/replay/$prop-* /verif/out/seeded_replays/ 2>/dev/null
+git -C /repo worktree remove --force $S/repo; rm -rf $S
+echo "$name prop=$prop rc=$rc $(grep -c VIOLATION /tmp/seed_$name.out) violation(s): $(grep -m1 '^# ' /tmp/seed_$name.out | cut -c1-200) $(grep -m1 -o 'no-failing-input-found' /tmp/seed_$name.out)"
